@@ -136,7 +136,7 @@ def doc_conforms(t, v, path="$"):
 class C15(PropBase):
     pid = "C15"
     coq_dirs = ["Base", "C08", "C19", "C15"]
-    translators = ["c15_enums.py", "bitflip_consts.py", "c15_schema.py"]
+    translators = ["c15_enums.py", "bitflip_consts.py", "c15_schema.py", "c15_keys.py"]
     bins = ["c15"]
     has_model_driver = False        # two-stage: the model renders from the facts the harness prints (see extra)
     impl_mem_gb = 6
@@ -545,6 +545,16 @@ class C15(PropBase):
             for i, x in enumerate(doc.get("unloaded_modules")):
                 yield "unloaded_modules[%d].base_addr" % i, x["base_addr"]
                 yield "unloaded_modules[%d].end_addr" % i, x["end_addr"]
+            for key in ("address", "offset"):
+                yield "crash_info.adjusted_address." + key, (ci.get("adjusted_address") or {}).get(key)
+            for i, x in enumerate(ci.get("memory_accesses") or []):
+                yield "crash_info.memory_accesses[%d].address" % i, x.get("address")
+            yield "crash_info.instruction_pointer_update.address", (ci.get("instruction_pointer_update") or {}).get("address")
+            for i, x in enumerate(ci.get("possible_bit_flips") or []):
+                yield "crash_info.possible_bit_flips[%d].address" % i, x.get("address")
+            for i, x in enumerate((doc.get("mac_crash_info") or {}).get("records") or []):
+                for key in ("thread", "dialog_mode", "abort_cause"):
+                    yield "mac_crash_info.records[%d].%s" % (i, key), x.get(key)
             for ti, t in enumerate(threads + ([ct] if ct else [])):
                 for fi, f in enumerate(t["frames"]):
                     for key in ("offset", "module_offset", "function_offset"):
